@@ -8,7 +8,7 @@ X = "Exploration, not proof: the property held on every generated / enumerated c
 CHECKS = {
  "C01": ("model-based stateful PBT (rapid) + bounded-exhaustive permutation pairs vs comparator-aware map model",
          X + "Histories of Put/Remove/Get/Clear and runs on all 8 key-value kinds x comparator family x B-tree orders are compared with a map model after every step (touched/present/absent/just-removed Get, Size, Empty, position-aligned or multiset Keys/Values); all insertion x removal permutations of k keys enumerate every tree shape reachable that way.",
-         "Trusts the map model, rapid and the comparator family (all strict weak orders); int keys/values in the model-based histories (other element types through the type-isomorphism and default-constructor targets, DESIGN §8.9-8.10); comparator-equal keys compared modulo the comparator.",
+         "Trusts the map model, rapid and the comparator family (all strict weak orders); int keys/values in the model-based histories (other element types through the type-isomorphism and default-constructor targets, DESIGN §8.9-8.10); comparator-equal keys compared modulo the comparator, in the bidirectional maps additionally with exact representatives; histories include loads that must be rejected (nothing may change) and null (DESIGN §8.11).",
          "DESIGN.md §4 C01"),
  "C02": ("model-based PBT vs comparator-sorted model with probe keys between neighbours",
          X + "Ordered kinds x 5 comparators (incl. two many-to-one) x orders: Keys/Values/forward+backward iteration strictly ascending and equal to the model, least/greatest accessors, Floor/Ceiling against a model scan with exact found-flag, probes below/between/above.",
@@ -16,7 +16,7 @@ CHECKS = {
          "DESIGN.md §4 C02"),
  "C03": ("differential + model-based PBT: one script on three lists vs slice model, plus exhaustive index pairs",
          X + "Each script runs on ArrayList, SinglyLinkedList and DoublyLinkedList at once with wild indices, 0..4-value variadics and threshold-crossing bulk phases; Values/Size/Get/IndexOf/Contains compared with a slice model after every step; every pair of index operations at every index is enumerated for short lists.",
-         "Trusts the slice model; sort stability not assumed (coarse order: validity predicate).",
+         "Trusts the slice model; sort stability not assumed (coarse order: validity predicate); lists of any holding unhashable values (nested arrays/objects) in a separate target (DESIGN §8.11).",
          "DESIGN.md §4 C03"),
  "C04": ("model-based PBT: one script on five set configurations vs Go-map set",
          X + "Variadic Add/Remove/Clear histories (duplicates inside a call, re-adds) on HashSet, TreeSet (natural, reversed, many-to-one) and LinkedHashSet; Contains over the whole domain, Contains(xs...), Size, Empty, duplicate-free Values after every step.",
@@ -40,27 +40,27 @@ CHECKS = {
          "DESIGN.md §4 C08"),
  "C09": ("model-based PBT + exhaustive sequences vs ordered-slice model",
          X + "Put/Add/Remove/Clear histories on LinkedHashMap/LinkedHashSet with int and string keys: Keys, Values, forward/backward iterator, Each order and indices, and ToJSON key order (token decoder) equal the insertion-order model after every step.",
-         "Trusts the ordered-slice model.",
+         "Trusts the ordered-slice model; one long-lived iterator per container is rewound after every step; LinkedHashMap JSON order also over seven further key types (internal/keytypes, DESIGN §8.11).",
          "DESIGN.md §4 C09"),
  "C10": ("model-based PBT + exhaustive sequences vs two-map model with eviction",
          X + "Put/Remove/Clear with colliding keys and values on both bidirectional maps: Get and GetKey over the whole domain equal the model and are mutually inverse, Keys/Values are the model's sets, sizes agree, no displaced pair is returned; all sequences of length 5 over 13 operations.",
-         "Total comparators only for TreeBidiMap.",
+         "Two-map model with total comparators; TreeBidiMap with many-to-one comparators through a class-aware model plus exact representatives (Get and GetKey name each other exactly; DESIGN §8.11); tides target: grow, shrink, double collisions.",
          "DESIGN.md §4 C10"),
  "C11": ("round-trip PBT over all 21 kinds x configurations x int/string elements",
          X + "For states built by add/put/remove/pop/clear scripts: ToJSON valid, right top-level type, equal to json.Marshal, container unchanged; FromJSON and json.Unmarshal into fresh containers give the same observable state, iteration order, re-serialisation and Pop/Dequeue sequence.",
-         "JSON-representable elements; total comparators.",
+         "JSON-representable elements; total comparators; the eight key-value kinds also over seven further key types against encoding/json (internal/keytypes, DESIGN §8.11).",
          "DESIGN.md §4 C11"),
  "C12": ("differential PBT against encoding/json into a fresh slice/map, grammar + mutation + raw byte inputs, model-checked continuation; native fuzz target in the thorough tier",
          X + "Arbitrary prior content, then hostile inputs through FromJSON/json.Unmarshal: on error the full observable state and ToJSON are exactly as before; on success the content is exactly the reference denotation under the kind's discipline; follow-up operations and the final drain agree with the family's model.",
-         "Bidi survivor among keys sharing a value and LinkedHashMap position of a repeated key left open; inputs are short.",
+         "Bidi survivor among keys sharing a value and LinkedHashMap position of a repeated key left open; inputs are short; hand-made documents with hostile member names over seven further key types (internal/keytypes, DESIGN §8.11).",
          "DESIGN.md §4 C12"),
  "C13": ("model-based + metamorphic PBT with deep reflective fingerprint; exhaustive subset pairs",
          X + "Intersection/Union/Difference on HashSet/TreeSet/LinkedHashSet operands (incl. the same object, empty, nested, either size): result membership equals Go-map algebra, result is a new object, operands keep contents and fingerprint, later mutation of any of the three leaves the others unchanged, TreeSet results stay in the operands' order.",
-         "TreeSet operands share one comparator function value.",
+         "TreeSet operands share one comparator function value (NewWith) or come from treeset.New and the sets the library derives from them; float64 members incl. NaN in a separate target (DESIGN §8.11).",
          "DESIGN.md §4 C13"),
  "C14": ("model-based PBT over predicate and mapper families with callback logs and fingerprints",
          X + "Each/Any/All/Find/Select/Map on the 8 enumerable kinds x comparators: callback log equals the iterator sequence, Any/All/Find equal exists/for-all/first, Select/Map equal the kind's model fed the elements in order, results are new and keep the ordering discipline, receiver keeps contents and fingerprint.",
-         "Pure callbacks; Map results also compared exactly with a new container fed the mapped elements one by one (DESIGN §8.7).",
+         "Pure callbacks; Map results also compared exactly with a new container fed the mapped elements one by one (DESIGN §8.7); receivers may have a past (grown and shrunk, loaded, cleared) and are checked a second time after a mutation (DESIGN §8.11).",
          "DESIGN.md §4 C14"),
  "C15": ("reflective API-surface PBT: invariants after every exported call + cleared-vs-fresh lock-step differential",
          X + "Histories over every exported method of all 21 kinds: Empty<=>Size==0, len(Values)==len(Keys)==Size, Full<=>Size==cap, String prefix, observers leave the fingerprint; after Clear a continuation is applied in lock-step to the cleared and to a fresh container and every result and observer must agree.",
